@@ -8,6 +8,15 @@ BASE = ("cd /repo && /venv/bin/python -m pytest -ra -q -p no:cacheprovider --tim
         "--continue-on-collection-errors")
 
 CLAIMED = {
+    "C01": ("Lean theorems for every device chunk policy (every script, by induction): each message of a chunked "
+            "transfer is CLA cmd op || piece and the pieces concatenate to a contiguous prefix of the data "
+            "(nothing added, dropped or reordered); a transfer that reports success has relayed exactly the data "
+            "and the device named an expected next part; chunk independence. The oracle Spec.C01.c01 recomputes "
+            "the expected parts (path/input, BTC payload layout with unsigned tx and extra data, receipt, proof "
+            "framing) from the request independently of the model's encoders and checks prefix/order/"
+            "completeness and success-iff-consumed-and-DER on the implementation's APDU trace.",
+            "partial: the composition of the four steps inside sign_authorized is tied by correspondence + oracle "
+            "(theorems are per chunked transfer); python-bitcoinlib is represented by the shim"),
     "C02": ("Lean theorems: non-objects get the format error; everything the generic gate or a command's validator "
             "refuses is answered with that code with no event at all in every world (rejected_no_contact); "
             "accepted requests are handed to the operation; udValue/keyId validators agree with the documented "
@@ -34,6 +43,15 @@ CLAIMED = {
             "partial: the composition 'status at step k of the real exchange reaches the table lookup' is the "
             "model's control flow, tied to the code by the correspondence matrix (all 65536 words at every step "
             "kind in thorough); namedCause is a trusted reading of firmware headers and docs"),
+    "C05": ("Lean theorems: brothers handed to the block operation are a permutation of the client's brothers and "
+            "pairwise ascending by hash key (total + transitive byte order, core mergeSort lemmas, stable); "
+            "length/count fields round-trip; chunk theorems of C01 apply to header transfers. The oracle "
+            "Spec.C05.c05 re-parses the implementation's APDU trace into (metadata, header, brothers) segments and "
+            "checks announced count, byte-exact in-order headers (mm fields removed for ancestor updates), "
+            "metadata = BE16(mm payload length) || coinbase hash (hash recomputed independently from the full "
+            "coinbase), brother count/sorting/permutation, and 0/1 exactly on total/partial success.",
+            "partial: RLP decode/encode and block-field removal are modelled and differentially checked, "
+            "mm_hash_invariant is not yet proved; keccak/SHA-256 uninterpreted"),
     "C11": ("Lean theorems: transport classification; ensure_connection is a no-op without a pending repair; "
             "under the common handler guard a communication error yields the device-error code and raises the "
             "repair flag, a time-out yields the same code and leaves the flag; with a repair pending and a failing "
@@ -43,6 +61,13 @@ CLAIMED = {
             "two-request histories.",
             "partial: 'bring-up APDUs precede the command APDU' is checked by the oracle on the implementation's "
             "traces and by correspondence, not stated as a theorem; TCP-transport faults are out of scope"),
+    "C13": ("Lean theorems over generated tables: state selectors, flag offsets and network names are those of "
+            "firmware bc_state.h / docs/protocol.md; big-endian difficulty read-back ignores leading zeros and "
+            "round-trips below 2^288. The oracle Spec.C13.c13 recomputes the documented reply from the simulated "
+            "genuine device's state and requires the implementation's reply to equal it field by field, and a "
+            "uiHeartbeat to end in signer mode or report -905.",
+            "partial: reply assembly is tied by correspondence + oracle; the simulated device stands for a genuine "
+            "one; known finding F-13a"),
     "C14": ("Lean theorems about the model of get_unsigned_tx (python-bitcoinlib's codec re-modelled): fields "
             "preserved, script shape; tied to the code by differential correspondence and the oracle Spec.c14 "
             "evaluated on the implementation's output.",
